@@ -92,6 +92,17 @@ func pureOperand(v ssa.Value, depth int) bool {
 			}
 			break
 		}
+		// field of a pointer parameter (directly, or through the cell it was spilled to) that no
+		// function of the module ever stores to: it has one value for the duration of the call
+		if outer, ok := x.X.(*ssa.FieldAddr); ok && currentWorld != nil {
+			base := resolveCell(outer.X)
+			if _, isParam := base.(*ssa.Parameter); isParam {
+				// stores that initialise a freshly allocated object (composite literals) do not count
+				if t, f, ok := FieldOf(outer); ok && len(currentWorld.FieldStores("shared:"+t, f)) == 0 {
+					return true
+				}
+			}
+		}
 		al, ok := fa.X.(*ssa.Alloc)
 		if !ok {
 			return false
